@@ -417,6 +417,10 @@ func (pe *PolicyEngine) insertWorkload(rs interface{}, kind string) error {
 	var podObj *k8s.Pod
 	for _, podObj = range pods {
 		podStr := types.NamespacedName{Namespace: podObj.Namespace, Name: podObj.Name}
+		if _, ok := pe.podsMap[podStr.String()]; ok {
+			// the workload is updated: results cached for it may rely on its previous state (e.g. its named ports)
+			pe.cache.clear()
+		}
 		pe.podsMap[podStr.String()] = podObj
 		// update cache with new pod associated to to its owner
 		pe.cache.addPod(podObj, podStr.String())
@@ -434,6 +438,10 @@ func (pe *PolicyEngine) insertPod(pod *corev1.Pod) error {
 		return err
 	}
 	podStr := types.NamespacedName{Namespace: podObj.Namespace, Name: podObj.Name}
+	if _, ok := pe.podsMap[podStr.String()]; ok {
+		// the pod is updated: results cached for its owner may rely on its previous state (e.g. its named ports)
+		pe.cache.clear()
+	}
 	pe.podsMap[podStr.String()] = podObj
 	// update cache with new pod associated to to its owner
 	pe.cache.addPod(podObj, podStr.String())
